@@ -41,6 +41,13 @@ var c42Scenarios = []*c42Scenario{
 		Alpha:  []string{"W1", "W2", "R0:1:a1", "R0:2:a1", "E0", "C0", "A"},
 		DepthQ: 4, DepthT: 6, Props: []string{"C42", "C43"},
 	},
+	{ // a request is lost while being written (the stream breaks under the
+		// Send of an ACK, a NACK or a subscription change) and the stream is
+		// re-created: what the first requests of the new stream carry
+		Name: "send-faults", NServers: 1, Slow: -1, Watchers: c42WSame, Dt: c42Expiry,
+		Alpha:  []string{"W1", "W3", "R0:1:a1", "R0:1:aX", "R0:1:a2", "F0", "E0", "C0", "A"},
+		DepthQ: 5, DepthT: 7, Props: []string{"C42", "C43"},
+	},
 	{ // unknown type and empty responses
 		Name: "ads-odd", NServers: 1, Slow: -1, Watchers: c42WTypes, Dt: c42Expiry,
 		Alpha:  []string{"W1", "W2", "U0", "R0:1:-", "R0:2:-", "R0:1:a1", "R0:2:a1", "E0"},
@@ -244,6 +251,17 @@ func c42Compare(sc *c42Scenario, ev c42Ev, exp *c42Exp, obs *c42Obs) (fails []c4
 	}
 	for k := range ck {
 		e, o := exp.Consumed[k], obs.Consumed[k]
+		released := false
+		for _, x := range exp.Tlog[k[0]] {
+			if x == "X" {
+				released = true
+			}
+		}
+		if released {
+			// the channel is released in this step: whether its reader still
+			// picks up what is left on the stream is a race with the teardown
+			continue
+		}
 		if o > e {
 			add("C42", "read-before-onDone/"+evk, "stream S%d#%d: %d message(s) were read, only %d may be (watchers still hold onDone of the previous response)", k[0], k[1], o, e)
 		} else if o < e {
